@@ -65,6 +65,7 @@ func mkSettings(w *ktWorld, s c01Settings) *service.Settings {
 type apMint struct {
 	wire      []byte
 	direct    *messages.APReq // used when the request cannot be marshalled
+	tktRealm  string          // realm of the ticket (unencrypted part)
 	tktCName  types.PrincipalName
 	pacName   string // EffectiveName inside the PAC the ticket carries ("" without PAC)
 	tktCRealm string
@@ -178,7 +179,7 @@ func mintAPReq(w *ktWorld, c map[string]string, s c01Settings, r *rand.Rand, ori
 	ea.Cipher = spoil(ea.Cipher, c["authCipher"])
 	ap := messages.APReq{PVNO: 5, MsgType: 14, APOptions: types.NewKrbFlags(), Ticket: tkt, EncryptedAuthenticator: ea}
 	ms := func(t time.Time) int64 { return int64(t.Sub(origin) / time.Millisecond) }
-	m := &apMint{tktCName: types.PrincipalName{NameType: 1, NameString: ts.cname}, tktCRealm: ts.crealm, end: ts.end,
+	m := &apMint{tktRealm: ts.realmLabel, tktCName: types.PrincipalName{NameType: 1, NameString: ts.cname}, tktCRealm: ts.crealm, end: ts.end,
 		conc: map[string]interface{}{"start": ms(ts.start), "end": ms(ts.end), "ctime": ms(as.ctime), "skew": int64(skew / time.Millisecond)}}
 	if ts.start.IsZero() {
 		m.conc["start"] = 0
@@ -259,6 +260,7 @@ func cmdC01(args []string) error {
 	casesF := fs.String("cases", "cases.ndjson", "abstract cases from GenC01")
 	settingsF := fs.String("settings", "settings.ndjson", "settings space from GenC01")
 	pairSettings := fs.Int("pairsettings", 6, "settings per pair case (quick); 0 = all")
+	mitDir := fs.String("mitdir", "", "directory to export AP-REQs and keytabs into, for the cross-check of the specification against MIT Kerberos")
 	fs.Parse(args)
 	r := rand.New(rand.NewSource(*seed))
 	var cases []c01Case
@@ -299,6 +301,24 @@ func cmdC01(args []string) error {
 		worlds[e] = w
 	}
 	pacs := newPacFactory()
+	var mitTw *traceWriter
+	if *mitDir != "" {
+		for e, w := range worlds {
+			b, err := w.kt.Marshal()
+			if err != nil {
+				return err
+			}
+			if err := os.WriteFile(fmt.Sprintf("%s/kt_%d.keytab", *mitDir, e), b, 0600); err != nil {
+				return err
+			}
+		}
+		mitTw, err = newTrace(*mitDir + "/apreqs.ndjson")
+		if err != nil {
+			return err
+		}
+		defer mitTw.close()
+	}
+	originEpochMs := origin.UnixNano() / int64(time.Millisecond)
 	type job struct {
 		c  c01Case
 		s  c01Settings
@@ -324,6 +344,13 @@ func cmdC01(args []string) error {
 					}
 					failMu.Unlock()
 					continue
+				}
+				// the part of the case space an RFC 4120 acceptor without gokrb5's options decides too (no override, no required address, no
+				// PAC decoding, default skew; a named service, a stated key version, nothing appended to the ticket): exported for MIT
+				if mitTw != nil && m.wire != nil && j.s.Skew == "default" && !j.s.RequireHostAddr && j.s.Override == "none" && !j.s.DecodePAC &&
+					j.c.Case["pac"] == "none" && j.c.Case["trailer"] == "none" && j.c.Case["snameLabel"] != "empty" && j.c.Case["kvnoLabel"] != "k0" {
+					mitTw.emit(map[string]interface{}{"case": j.c.Case, "settings": j.s, "et": j.et, "conc": m.conc, "wire": hx(m.wire),
+						"sname": princString(j.c.Case["snameLabel"]), "realm": m.tktRealm, "origin": originEpochMs})
 				}
 				st := mkSettings(w, j.s)
 				p1, _ := m.present(st, origin)
